@@ -529,6 +529,8 @@ def r_condition_names(ctx):
 
 
 def run(ctx):
+    from . import solveprog
+    solveprog.r_solve_program(ctx, {"drain", "track"})    # every constraint that sits in a table is sent and tracked (trivial ones included): it gets a multiplier
     r_condition_names(ctx)
     r_nameunique(ctx)
     r_align(ctx)
